@@ -89,6 +89,10 @@ func genC07(t *rapid.T) c07Case {
 func runC07(_ *testing.T, c c07Case) kit.Outcome {
 	b := buildLimit(c.Cfg, nil)
 	algo := c.Cfg.Algo
+	if (c.Cfg.Ctor != "" || len(c.Cfg.Unset) > 0) && b.Outer.EstimatedLimit() < c.Cfg.floorOf() {
+		// the library's default initial value lies below the configured minimum: not a valid configuration (min <= initial)
+		return kit.Outcome{Labels: []string{"discard:default-initial-below-min"}}
+	}
 	q := c.Cfg.effectiveQueue()
 	var sawDrop, sawZero bool
 	appLimited := func(inf, est int) bool {
